@@ -24,6 +24,15 @@ CLAIMED = {
             "values only (bit-exact), IEEE rounding is not claimed.",
             "Trusted: CrossHair symbolic int/bytes/str models (UTF-8 model excludes surrogates: checked concretely), z3, the reference "
             "encoder vf/ref/C01_ref.py; strings longer than the bounds and symbolic floats are outside."),
+    "C13": ("6/C13", SCN.replace("stacks (application - ASAP - SMAP - NSAP - vlan)", "B/IP layers (BIPSimple, BIPForeign, BIPBBMD, AnnexJCodec) on vlan.IPNetwork/IPRouter"),
+            "Layouts of 1..3 subnets with one BBMD each (full tables, two-hop and one-hop distribution), simple nodes and foreign devices: "
+            "for every originator (symbolic) and symbolic payload every other node's network layer receives the broadcast exactly once with "
+            "the true originator as source, the originator never. One BBMD + foreign device on the virtual clock with symbolic TTL and a "
+            "symbolic whole-second observation instant up to TTL + 30 + 6: served and listed (Read-FDT over the wire) for at least the TTL, "
+            "neither after TTL + grace without renewal, always with renewal, deletion takes effect at once, unregistration within grace; the "
+            "device's own registration status follows.",
+            "Trusted: as C04 plus the UDP multiplexer shim (as tests/test_bvll FauxMultiplexer) and inet stand-ins; TTL <= 2 (8), whole seconds; "
+            "partial distribution tables are outside (Annex J promises coverage only for full ones)."),
     "C14": ("6/C14", SX + "; differential against a reference scheduler (sorted list keyed by due time, installation order)",
             "The real TaskManager / core.run / core.run_once on a virtual clock: every operation sequence up to length 3 (quick) / 4 (thorough) "
             "plus longer opcode shapes over {install at t, install after delta, suspend, resume, re-install, advance} with symbolic tasks and "
@@ -32,6 +41,14 @@ CLAIMED = {
             "slot; deferred batches with every subset of raising / re-deferring members run each function once in order.",
             "Trusted: as C07 plus vf/world.py (asyncore.loop -> clock advance, trigger stand-in); instants are integers or eighths of a second "
             "so real arithmetic equals binary64; IEEE rounding of the recurring-slot formula for non-representable intervals is not claimed."),
+    "C02": ("6/C02", SX + "; differential against a clause 20.2.1 reference (header encoder, liberal one-tag parser/tokenizer, bracket matcher)",
+            "Tags of every class with symbolic number 0..254 and symbolic content (lengths 0..8 fully symbolic, and each length escape "
+            "252/253/254/255/65535/65536/70000 with symbolic first/last/inner octets) encode to the reference header and round-trip consuming "
+            "every octet; tag lists up to 3 (4) tags round-trip; EVERY octet string up to 3 (4, parts of 5) octets is decoded by TagList.decode "
+            "to InvalidTag or to a list that re-encodes to a fixed point, a single Tag from every string up to 7 (12) octets against the "
+            "reference parser, one-octet mutations of valid streams likewise; get_context / Any.decode against the reference bracket matcher "
+            "for every class pattern up to 5..8 (7..10) tags.",
+            "Trusted: as C07 plus vf/ref/C02_tags.py. Non-canonical but complete encodings may be accepted or refused (the statement is silent)."),
     "C04": ("6/C04", SCN,
             "Two complete stacks on a fault-injecting virtual LAN: for every placement of the instance's faults (drop, duplicate, reorder, "
             "delay across timeouts, silence from any frame on) over every frame, with symbolic payload octets, the solver-explored paths "
@@ -62,6 +79,33 @@ CLAIMED = {
             "every octet string up to the bound is decoded totally (header or DecodingError, fixed point on re-encode); "
             "the two code tables are checked for every capability value in range. Universal inside the bounds, nothing outside.",
             "Trusted: CrossHair's symbolic int/bytes models, z3, the hand-written reference layout; payload length bound 2/4, octet strings <= 5/8."),
+    "C08": ("6/C08", SX + "; differential against a clause 6.2 / 6.4 reference layout and parser",
+            "NPCI with every field symbolic (flags, priority, DNET/SNET 1..65534, station addresses of length 1/2/6/7 (255) with symbolic "
+            "octets, hop count, message type with vendor ID, payload) encodes to the reference octets and decodes back; every octet string up "
+            "to 8 (14) octets and every one-octet mutation of valid frames decodes to exactly the reference fields with a fixed point on "
+            "re-encode, or DecodingError - version other than 1, SNET 0xFFFF, SLEN 0 and truncation are always refused; each of the 12 "
+            "network messages round-trips symbolic parameters (lists 0..3 (5, 20), routing tables 0..2 (5) entries, port info to 255 octets) "
+            "through the type registry.",
+            "Trusted: as C07 plus vf/ref/C08_npci.py."),
+    "C09": ("6/C09", SX + "; differential against an Annex J reference layout and parser; octets observed below the real AnnexJCodec",
+            "Each of the 12 BVLL functions with symbolic parameters (codes, TTL, remaining time, all six octets of every address, 32-bit masks, "
+            "tables of 0..2 (4, 8, 40) entries, NPDUs of 0..6 (16) symbolic octets and boundary lengths to 1497) pushed through the real "
+            "AnnexJCodec: first octet 0x81, function code, length field = octets emitted, body = reference, decode restores the parameters; "
+            "objects whose declared length disagrees with their content never emit a frame with a false header; every datagram up to 26 (104) "
+            "octets per function code is accepted with the reference reading and a re-encode fixed point or refused, and every datagram "
+            "whose type or length field disagrees with it is refused on both decode routes.",
+            "Trusted: as C07 plus vf/ref/C09_annexj.py and the socket.inet_aton/ntoa stand-ins; over-long fixed-size frames with a true header "
+            "are tolerated (the statement asks only for type/length disagreement to be refused)."),
+    "C10": ("6/C10", SCN,
+            "A device stack fed hostile input: for 9 (all registered) confirmed services and for every unregistered choice a request with "
+            "intact header (symbolic invoke ID, max-segments, max-response incl. reserved codes, SA flag) and a fully symbolic parameter area "
+            "of 0..2 (3) octets gets exactly one reply with its invoke ID; every one-octet substitution / deletion / insertion (symbolic "
+            "position and octet) of valid ReadProperty, WriteProperty, ReadPropertyMultiple, Who-Is and SubscribeCOV frames, delivered with a "
+            "valid request queued at the same moment; symbolic noise at link level and, fed through one core.deferred() per datagram as "
+            "UDPDirector does, at BVLL level: the concurrent valid request is answered correctly, no transaction, timer or deferred call is "
+            "left, and a later valid request is answered.",
+            "Trusted: as C04; parameter areas longer than 3 octets and two or more mutations per frame are outside; for reserved max-APDU codes "
+            "only the health clause is demanded."),
     "C11": ("6/C11", SCN,
             "Invoke-ID allocation from a symbolic cursor (wrap-around without 256 requests) with symbolic peer choice and application-chosen "
             "IDs; one inbound reply of each kind with symbolic source and symbolic invoke ID against three live transactions with a forced "
@@ -74,6 +118,33 @@ CLAIMED = {
             "only when accepted and within max-segments, requests only toward peers that can receive segments, windows stay in 1..127 and "
             "within the proposal, and the outcome (ack or abort) is the one the limits dictate.",
             "Trusted: as C04; the application feeds I-Am announcements into DeviceInfoCache.iam_device_info (bacpypes leaves that to the application)."),
+    "C17": ("6/C17", SX + "; differential against a clause 19.2 reference (16-slot array, minimum on/off timer model)",
+            "All 20 commandable classes (registered subclasses): command plans with symbolic priorities (absent, any integer -300..300 incl. "
+            "0 and 17+), values and relinquishes through WriteProperty('presentValue', v, priority) and bare element writes; after every "
+            "command presentValue, all 16 slots, relinquish default and the encoded array equal the reference; refused writes change nothing; "
+            "every sequence of length 3 over 4 priorities (thorough: 4-5 on selected classes, 100-command sequences); element writes carrying "
+            "a PriorityValue are refused cleanly; binary objects with symbolic and independent minimum on/off times 0..10 hold a new state "
+            "at priority 6 for exactly the right minimum on the virtual clock.",
+            "Trusted: as C14 plus vf/ref/C17_prio.py; attribute assignment obj.presentValue = v (the library's internal direct write) and "
+            "direct=True are outside; over-the-wire commands are covered at object level through the same WriteProperty entry point."),
+    "C18": ("6/C18", SX + "; differential against integer arithmetic on the denoted numbers (reference cross-checked with the ipaddress module)",
+            "Every accepted notation as a fixed shape with symbolic digits / hex glyphs / octets: stations, net:station, net:*, *, *:*, hex and "
+            "X'' strings with optional network, ethernet form, dotted IPv4 with all 33 mask lengths and ports 0..65535, tuples, raw octets, the "
+            "typed constructors: type, network, octets and the IP helper fields equal the reference; network > 65534 and station > 255 refused; "
+            "Address(str(a)) == a; over pairs and triples of different spellings == is reflexive, symmetric, transitive, != its negation, and "
+            "equal addresses have equal hashed material and land in the same dict/set slot; junk characters in front / inside / behind each "
+            "shape are refused.",
+            "Trusted: as C07 plus vf/ref/C18_ref.py, local symbolic models of binascii.hexlify/unhexlify and the inet stand-ins; arbitrary "
+            "free-form strings and route suffixes are outside."),
+    "C19": ("6/C19", SX + "; differential against a reference map (source net, destination net) -> router with newest-wins",
+            "RouterInfoCache from the empty cache through every operation sequence up to length 3 (thorough 3..5 on shrinking domains) over "
+            "{learn, forget router, forget some of its networks, forget networks, renumber} on 2 source nets x 3 routers x 4 destinations "
+            "(every subset): after every step every lookup equals the reference, every credited destination is reachable and leads to its "
+            "router, nothing else does, no operation raises; one step from every 2-learn prefix; and a real NSAP + NetworkServiceElement on a "
+            "vlan fed I-Am-Router / routed traffic (SADR) / Network-Number-Is frames with symbolic content, after which packets to every "
+            "destination go to the router the reference names or trigger Who-Is-Router.",
+            "Trusted: as C04 plus vf/ref/C19_routes.py; renumbering onto a network that already has routers is treated as unspecified "
+            "(any coherent outcome accepted)."),
 }
 
 NOT_YET = {}
